@@ -1613,6 +1613,48 @@ fn skel_programs(v: &mut Vec<Prog>, thorough: bool) {
         add(format!("skel:fail-nested:{gi}"), "", 0, "{% for row in rows %}({% for x in row %}{{ 10 // x }}{% endfor %}){% endfor %}{{ 1 }}",
             json!({"rows": g}), json!([["rows", 0], ["rows", 1]]), json!([["rows", 2]]));
     }
+    // conditionals whose direction comes from the data, loops with an else part, loops with a
+    // filter, further kinds of instructions that fail for some item
+    let mut add2 = |id: String, src: &str, ctx: serde_json::Value, skel: serde_json::Value| {
+        let mut p = prog(&id, "", 0, &[("main", src.to_string())]);
+        p.ctx = ctx;
+        p.skel = Some(skel);
+        v.push(p);
+    };
+    let lists: Vec<Vec<i64>> = vec![vec![], vec![0], vec![1], vec![1, 0], vec![0, 0, 3], vec![2, 0, 1, 0], vec![5, 6, 7], vec![0, 1, 0, 1, 1]];
+    for (li, xs) in lists.iter().enumerate() {
+        add2(format!("skel:if-else:{li}"), "{% for x in xs %}{% if x %}T{{ x }}{% else %}F{% endif %};{% endfor %}end{{ 1 }}",
+             json!({"xs": xs}), json!({"loops": [["xs", 0]], "fails": [], "conds": [["truthy", "xs", 1]]}));
+        add2(format!("skel:if:{li}"), "{% for x in xs %}{% if x %}{{ x }}{{ x }}{% endif %}{% endfor %}",
+             json!({"xs": xs}), json!({"loops": [["xs", 0]], "fails": [], "conds": [["truthy", "xs", 1]]}));
+        add2(format!("skel:elif:{li}"), "{% for x in xs %}{% if x %}a{% elif ys %}b{{ 1 }}{% else %}c{% endif %}{% endfor %}",
+             json!({"xs": xs, "ys": if li % 2 == 0 { json!([1]) } else { json!([]) }}),
+             json!({"loops": [["xs", 0]], "fails": [], "conds": [["truthy", "xs", 1], ["truthy-of", "ys", "xs", 1]]}));
+        add2(format!("skel:for-else:{li}"), "{% for x in xs %}{{ x }},{% else %}none{{ 1 }}{{ 2 }}{% endfor %}!",
+             json!({"xs": xs}), json!({"loops": [["xs", 0]], "fails": [], "conds": [["empty", "xs", 0]]}));
+        add2(format!("skel:filter:{li}"), "{% for x in xs if x %}[{{ x }}]{% endfor %}!{{ 1 }}",
+             json!({"xs": xs}), json!({"loops": [["xs", 0], ["xs", 0, "truthy"]], "fails": [], "conds": [["truthy", "xs", 1]]}));
+        add2(format!("skel:filter-else:{li}"), "{% for x in xs if x %}[{{ x }}]{% else %}nothing{{ 1 }}{% endfor %}",
+             json!({"xs": xs}), json!({"loops": [["xs", 0], ["xs", 0, "truthy"]], "fails": [], "conds": [["truthy", "xs", 1], ["none-truthy", "xs", 0]]}));
+        add2(format!("skel:rem:{li}"), "{% for x in xs %}{{ 7 % x }};{% endfor %}done{{ 1 }}",
+             json!({"xs": xs}), json!({"loops": [["xs", 0]], "fails": [["xs", 1]], "conds": []}));
+        // the divisor of the first side comes from another list: it fails only where that side is taken
+        let ys: Vec<i64> = (0..xs.len()).map(|i| xs[(i + 1) % xs.len()]).collect();
+        add2(format!("skel:rem-in-branch:{li}"), "{% for x in xs %}{% if x %}{{ 7 % ys[loop.index0] }}{% else %}{{ 7 // 2 }}z{% endif %}{% endfor %}",
+             json!({"xs": xs, "ys": ys, "never": 1}), json!({"loops": [["xs", 0]], "fails": [["ys", 1], ["never", 0]], "conds": [["truthy", "xs", 1]]}));
+    }
+    let rows: Vec<Vec<Vec<i64>>> = vec![vec![], vec![vec![]], vec![vec![1, 2], vec![]], vec![vec![], vec![0], vec![3, 0, 4]]];
+    for (ri, r) in rows.iter().enumerate() {
+        add2(format!("skel:nested-for-else:{ri}"), "{% for row in rows %}{% for x in row %}{{ x }}{% else %}-{{ 1 }}{% endfor %}|{% else %}empty{% endfor %}",
+             json!({"rows": r}), json!({"loops": [["rows", 0], ["rows", 1]], "fails": [], "conds": [["empty", "rows", 1], ["empty", "rows", 0]]}));
+        add2(format!("skel:nested-if:{ri}"), "{% for row in rows %}{% if row %}{% for x in row %}{% if x %}{{ x }}{% endif %}{% endfor %}{% endif %}{% endfor %}",
+             json!({"rows": r}), json!({"loops": [["rows", 0], ["rows", 1]], "fails": [], "conds": [["truthy", "rows", 1], ["truthy", "rows", 2]]}));
+    }
+    let strs: Vec<Vec<&str>> = vec![vec![], vec!["1"], vec!["x"], vec!["1", "22", "-3"], vec!["4", "four", "5"]];
+    for (si, ss) in strs.iter().enumerate() {
+        add2(format!("skel:int-filter:{si}"), "{% for s in ss %}{{ s|int }},{% endfor %}ok",
+             json!({"ss": ss}), json!({"loops": [["ss", 0]], "fails": [["ss", 1, "nonint"]], "conds": [], "fail_ops": ["ApplyFilter"]}));
+    }
 }
 
 
@@ -1652,6 +1694,12 @@ fn fixed_programs(thorough: bool) -> Vec<Prog> {
     ];
     for (i, s) in straight.iter().enumerate() {
         v.push(single(&format!("straight:{}", i), s));
+    }
+    // degenerate templates (every entry point and environment variant is run on them: no group)
+    let degenerate = [" ", "\n", "line one\nline two\n", "<b>&\"'</b>", "{# c #}", "  {#- c -#}  ", "a{# c #}b", "{% raw %}{{ x }}{% endraw %}",
+                      "{% set q = 1 %}", "{% block a %}{% endblock %}", "{% block a %}text{% endblock %}", "{% macro m() %}M{% endmacro %}"];
+    for (i, s) in degenerate.iter().enumerate() {
+        v.push(single(&format!("degenerate:{}", i), s));
     }
     // branches
     let branches = [
@@ -1784,6 +1832,8 @@ fn fixed_programs(thorough: bool) -> Vec<Prog> {
     let exprs = [
         "1 + 2", "xs|length > 2 and name == 'World'", "a if c else b", "range(5)|sum", "[a, b, xs[0]]|max",
         "name|upper ~ '!'", "items|map(attribute='a')|list", "missing", "1 // 0", "{'a': a}.a + b",
+        // degenerate expressions: a single constant of every kind, a single lookup
+        "1", "'text'", "true", "none", "1.5", "[1, 2]", "{'k': 1}", "a", "(1)", "-1", "''",
     ];
     for (i, s) in exprs.iter().enumerate() {
         v.push(expr(&format!("expr:{}", i), s));
@@ -1957,6 +2007,12 @@ fn main() {
                     emit(&p, thorough, i < if thorough { 3000 } else { 300 }, &mut out);
                 }
                 idx += 1;
+            }
+        }
+        Some("skel") => {
+            // the structured programs only (debugging aid)
+            for p in fixed_programs(false).iter().filter(|p| p.skel.is_some()) {
+                emit(p, false, false, &mut out);
             }
         }
         Some("one") => {
